@@ -20,6 +20,29 @@ PROPS = {
         assumptions=[],
         trusted_base=[],
     ),
+    'C03': dict(
+        level='proof',
+        text='object invariant Valid(m) (attribute set fixed by type; every value an Integral inside its documented range; '
+             'time a Real; sysex data a SysexData of ints 0..127) is proved to be established by the constructor/from_dict and '
+             'preserved by copy(**overrides), attribute assignment, attribute deletion and sysex `data +=`, for all 18 types, '
+             'with integer values fully symbolic (every range limit is inside the proof) and one contract clause per exit: '
+             'normal => acceptable and Valid and stored-as-given; exception => class in {ValueError, TypeError, AttributeError}, '
+             'input not acceptable, original unchanged. By induction over the call history no invalid state is reachable.',
+        note='trusted: pyvc engine, z3/cvc5, spec ranges in contracts/spec_midi.py, the object-invariant methodology '
+             '(invariant established + preserved by every public operation => holds after every history); non-integer kinds are '
+             'checked on representative values of each type (float, nan, str, None, tuple, list, complex); from_str is decided under C14',
+        clauses=[
+            ['constructor / from_dict: accepted iff acceptable, result Valid, values stored as given', 'P'],
+            ['copy(**overrides): same, result fresh, original unchanged on every exit', 'P'],
+            ['attribute assignment: accepted iff acceptable; rejected leaves message unchanged; type/attribute set never change', 'P'],
+            ['attribute deletion always rejected, message unchanged', 'P'],
+            ['sysex data += other', 'P'],
+            ['non-integer kinds: representative values per type', 'B'],
+            ['from_str', 'see C14'],
+        ],
+        assumptions=['object-invariant methodology (induction over the history of public calls)'],
+        trusted_base=[],
+    ),
     'C02': dict(
         level='proof',
         text='Message.from_bytes / decode_message are verified against the MIDI 1.0 well-formedness predicate for integer '
@@ -40,5 +63,5 @@ PROPS = {
 }
 
 NOT_APPLICABLE = {pid: _PENDING for pid in
-                  ['C03', 'C04', 'C05', 'C06', 'C07', 'C08', 'C09', 'C10', 'C11', 'C12', 'C13', 'C14', 'C15',
+                  ['C04', 'C05', 'C06', 'C07', 'C08', 'C09', 'C10', 'C11', 'C12', 'C13', 'C14', 'C15',
                    'C16', 'C17', 'C18', 'C19', 'C20']}
